@@ -486,7 +486,13 @@ func (cw *CWorld) issue(t *AToken) (delegation.Delegation, error) {
 			prfs = append(prfs, delegation.FromLink(dummyLink(1000+p)))
 			continue
 		}
-		if i < len(t.Bare) && t.Bare[i] && !t.Inline[i] {
+		alsoFull := false
+		for j, q := range t.Prfs {
+			if q == p && j < len(t.Inline) && t.Inline[j] {
+				alsoFull = true
+			}
+		}
+		if i < len(t.Bare) && t.Bare[i] && !t.Inline[i] && alsoFull {
 			if bs1, err := blockstore.NewBlockStore(blockstore.WithBlocks([]ipld.Block{cw.D[p].Root()})); err == nil {
 				if bare, err := delegation.NewDelegation(cw.D[p].Root(), bs1); err == nil {
 					prfs = append(prfs, delegation.FromDelegation(bare))
